@@ -410,6 +410,14 @@ func (v *VerifFed) HookMsgArrived(clientID string, msg *gmqtt.Message) (dropped 
 	return req.Message == nil, req.IterationOptions, err
 }
 
+// HookWillPublish sends a will message through the federation's OnWillPublishWrapper, the way sendWillLocked does.
+func (v *VerifFed) HookWillPublish(clientID string, msg *gmqtt.Message) (dropped bool, opts subscription.IterationOptions) {
+	h := v.F.OnWillPublishWrapper(func(context.Context, string, *server.WillMsgRequest) {})
+	req := &server.WillMsgRequest{Message: msg}
+	h(context.Background(), clientID, req)
+	return req.Message == nil, req.IterationOptions
+}
+
 // SendMessage calls the routing function directly.
 func (v *VerifFed) SendMessage(msg *gmqtt.Message) (drop bool, options *subscription.IterationOptions) {
 	return v.F.sendMessage(msg)
